@@ -174,7 +174,9 @@ theorem invLoop_exit {est : Nat → Nat} (hest : EstOK est) (s : Dec) (hs : 0 < 
       (prev.value = 0 ∨ (0 < prev.value ∧ |1 - s.value * prev.value| ≤ 9 / 10 ∧
         |(1 - s.value * running.value) - (1 - s.value * prev.value) ^ 2| ≤ invRho p)) →
       invLoop est s p fuel prev running = some R →
-      0 < R.value ∧ |1 - s.value * R.value| ≤ 2 * invRho p := by
+      0 < R.value ∧ |1 - s.value * R.value| ≤ 2 * invRho p ∧
+      ∃ b : Dec, 0 < b.value ∧ |1 - s.value * b.value| ≤ 2 * invRho p ∧
+        R = (invNext s b).withPrec est (p + inverseExtraPrec) := by
   obtain ⟨hρ0, hρ⟩ := invRho_small p hp
   intro fuel
   induction fuel with
@@ -211,19 +213,299 @@ theorem invLoop_exit {est : Nat → Nat} (hest : EstOK est) (s : Dec) (hs : 0 < 
     · rw [if_pos hexit] at h
       have hR : R = nx := (Option.some.inj h).symm
       rw [hR]
-      refine ⟨hnpos, ?_⟩
       rcases Bool.or_eq_true _ _ |>.mp hexit with hA | hB
       · -- fixed point
         have hv : nx.value = running.value := (Spec.valueEq_iff _ _).mp hA
-        rw [hv] at hL1 ⊢
-        exact fixed_point_residual s.value running.value (invRho p) hs hrpos hre hρ0 (by linarith) hL1
+        have hfix : |1 - s.value * running.value| ≤ 2 * invRho p := by
+          rw [hv] at hL1
+          exact fixed_point_residual s.value running.value (invRho p) hs hrpos hre hρ0 (by linarith) hL1
+        exact ⟨hnpos, by rw [hv]; exact hfix, running, hrpos, hfix, hnext.symm⟩
       · -- two-cycle
         have hv : nx.value = prev.value := (Spec.valueEq_iff _ _).mp hB
         rcases hprev with h0 | ⟨hppos, hpe, hpr⟩
         · rw [hv, h0] at hnpos; exact absurd hnpos (lt_irrefl _)
-        · rw [hv] at hres ⊢
-          exact two_cycle_residual _ _ (invRho p) hpe hre hρ0 hρ hpr hres
+        · rw [hv] at hres
+          have ha2 := two_cycle_residual _ _ (invRho p) hpe hre hρ0 hρ hpr hres
+          have hb2 := two_cycle_residual _ _ (invRho p) hre hpe hρ0 hρ hres hpr
+          exact ⟨hnpos, by rw [hv]; exact ha2, running, hrpos, hb2, hnext.symm⟩
     · rw [if_neg hexit] at h
       exact ih running nx R hnpos hne (Or.inr ⟨hrpos, hre, hres⟩) h
+
+/-! ### absolute form: the rounded value against its own last digit -/
+
+/-- `with_prec` in absolute terms: the error is at most half a unit of the result's last digit, and
+    the result's integer is at most `10^P` -/
+theorem withPrec_abs_error {est : Nat → Nat} (hest : EstOK est) (d : Dec) (P : Nat) (hP : 1 ≤ P) (hd : 0 < d.int) :
+    |(d.withPrec est P).value - d.value| ≤ 1 / 2 * (10 : ℚ) ^ (-(d.withPrec est P).scale) ∧
+    (d.withPrec est P).int ≤ 10 ^ P ∧ 0 < (d.withPrec est P).int := by
+  rw [withPrec_spec hest]
+  have hn0 : d.int.natAbs ≠ 0 := by omega
+  have hlt := lt_pow_numDigits d.int.natAbs
+  have hndpos := numDigits_pos d.int.natAbs
+  unfold Spec.roundToPrec Spec.roundToScale
+  rw [Spec.numDigits_eq_model]
+  by_cases hcase : d.scale + ((P : Int) - (numDigits d.int.natAbs : Int)) ≥ d.scale
+  · rw [if_pos hcase]
+    have hv : (Dec.mk (d.int * ((10 ^ (d.scale + ((P : Int) - (numDigits d.int.natAbs : Int)) - d.scale).toNat : Nat) : Int))
+        (d.scale + ((P : Int) - (numDigits d.int.natAbs : Int)))).value = d.value := value_scale_up _ _ _ hcase
+    refine ⟨?_, ?_, ?_⟩
+    · rw [hv, sub_self, abs_zero]
+      exact mul_nonneg (by norm_num) (zpow_pos (by norm_num) _).le
+    · simp only
+      obtain ⟨j, hj⟩ : ∃ j : Nat, (d.scale + ((P : Int) - (numDigits d.int.natAbs : Int)) - d.scale).toNat = j ∧ numDigits d.int.natAbs + j = P :=
+        ⟨(d.scale + ((P : Int) - (numDigits d.int.natAbs : Int)) - d.scale).toNat, rfl, by omega⟩
+      rw [hj.1]
+      have h1 : d.int.natAbs * 10 ^ j ≤ 10 ^ numDigits d.int.natAbs * 10 ^ j := Nat.mul_le_mul_right _ hlt.le
+      rw [← pow_add, hj.2] at h1
+      have : d.int = (d.int.natAbs : Int) := by omega
+      rw [this]
+      exact_mod_cast h1
+    · simp only
+      have : (0 : Int) < ((10 ^ (d.scale + ((P : Int) - (numDigits d.int.natAbs : Int)) - d.scale).toNat : Nat) : Int) := by positivity
+      exact Int.mul_pos hd this
+  · rw [if_neg hcase]
+    obtain ⟨k, hk⟩ : ∃ k : Nat, (numDigits d.int.natAbs : Int) - P = k ∧ 1 ≤ k := ⟨numDigits d.int.natAbs - P, by omega, by omega⟩
+    have hkk : (d.scale - (d.scale + ((P : Int) - (numDigits d.int.natAbs : Int)))).toNat = k := by omega
+    rw [hkk]
+    have hneg : decide (d.int < 0) = false := by simp; omega
+    have hsg : Spec.sgn d.int = 1 := by unfold Spec.sgn; rw [if_neg (by omega)]
+    rw [hneg, hsg, one_mul]
+    obtain ⟨r1, r2⟩ := Spec.roundNat_halfUp false d.int.natAbs k
+    -- the rounded integer is between 1 and 10^P
+    have hq : d.int.natAbs / 10 ^ k < 10 ^ P := by
+      rw [Nat.div_lt_iff_lt_mul (by positivity)]
+      have : numDigits d.int.natAbs = P + k := by omega
+      rw [← pow_add, ← this]; exact hlt
+    have hqpos : 1 ≤ d.int.natAbs / 10 ^ k := by
+      have h1 := pow_numDigits_le d.int.natAbs hn0
+      have : 10 ^ k ≤ 10 ^ (numDigits d.int.natAbs - 1) := Nat.pow_le_pow_right (by norm_num) (by omega)
+      exact (Nat.one_le_div_iff (by positivity)).mpr (le_trans this h1)
+    have hRle : Spec.roundNat .HalfUp false d.int.natAbs k ≤ 10 ^ P := by
+      unfold Spec.roundNat; split <;> omega
+    have hRpos : 1 ≤ Spec.roundNat .HalfUp false d.int.natAbs k := by
+      unfold Spec.roundNat; split <;> omega
+    generalize Spec.roundNat .HalfUp false d.int.natAbs k = R at r1 r2 hRle hRpos
+    have hns : d.scale + ((P : Int) - (numDigits d.int.natAbs : Int)) = d.scale - k := by omega
+    rw [hns]
+    refine ⟨?_, by simp only; exact_mod_cast hRle, by simp only; exact_mod_cast hRpos⟩
+    unfold Dec.value
+    simp only
+    have hnat : (d.int : ℚ) = (d.int.natAbs : ℚ) := by
+      rw [← Int.cast_natCast, Int.natAbs_of_nonneg (by omega)]
+    have hsplit : (d.int : ℚ) * (10 : ℚ) ^ (-d.scale) = (d.int.natAbs : ℚ) / (10 : ℚ) ^ k * (10 : ℚ) ^ (-(d.scale - (k : Int))) := by
+      rw [hnat]
+      have : -(d.scale - (k : Int)) = -d.scale + (k : Int) := by ring
+      rw [this, zpow_add₀ (by norm_num : (10 : ℚ) ≠ 0), zpow_natCast]
+      field_simp
+    rw [hsplit]
+    have hu : (0 : ℚ) < (10 : ℚ) ^ (-(d.scale - (k : Int))) := zpow_pos (by norm_num) _
+    rw [← sub_mul, abs_mul, abs_of_pos hu]
+    push_cast
+    have habs : |(R : ℚ) - (d.int.natAbs : ℚ) / (10 : ℚ) ^ k| ≤ 1 / 2 := by
+      rw [abs_le]; constructor <;> linarith
+    exact mul_le_mul_of_nonneg_right habs hu.le
+
+/-- pure arithmetic behind the sharp bound: a value `Rv` within half a unit `U` of the Newton step
+    of `bv`, with both residuals at most `t`, is within `0.61·U` of `1/x` -/
+theorem sharp_arith (x bv Rv U k t : ℚ) (hx : 0 < x) (hU : 0 < U) (ht0 : 0 < t) (ht : t ≤ 1 / 100)
+    (hk : Rv ≤ k * U) (hk0 : 0 < k) (hkt : k * t * t ≤ 1 / 10)
+    (heb : |1 - x * bv| ≤ t) (heR : |1 - x * Rv| ≤ t)
+    (hnear : |Rv - bv * (2 - x * bv)| ≤ 1 / 2 * U) :
+    |Rv - 1 / x| ≤ 61 / 100 * U := by
+  have hxne : x ≠ 0 := hx.ne'
+  obtain ⟨y, hy⟩ : ∃ y : ℚ, y = 1 / x := ⟨_, rfl⟩
+  have hxy : x * y = 1 := by rw [hy]; field_simp
+  have hypos : 0 < y := by rw [hy]; positivity
+  rw [← hy]
+  -- the Newton step in terms of y
+  have hd : bv * (2 - x * bv) = y * (1 - (1 - x * bv) ^ 2) := by
+    have : bv * (2 - x * bv) = (x * y) * (bv * (2 - x * bv)) := by rw [hxy, one_mul]
+    rw [this]; ring
+  have hRy : Rv = y * (1 - (1 - x * Rv)) := by
+    have : Rv = (x * y) * Rv := by rw [hxy, one_mul]
+    rw [this]; ring_nf; rw [mul_comm x y] at *; nlinarith [hxy]
+  obtain ⟨r1, r2⟩ := abs_le.mp heR
+  obtain ⟨b1, b2⟩ := abs_le.mp heb
+  have hsq : (1 - x * bv) ^ 2 ≤ t * t := by nlinarith
+  have hsq0 : 0 ≤ (1 - x * bv) ^ 2 := sq_nonneg _
+  -- y ≤ (100/99) Rv
+  have hyR : y * (99 / 100) ≤ Rv := by
+    have : y * (1 - t) ≤ y * (1 - (1 - x * Rv)) := mul_le_mul_of_nonneg_left (by linarith) hypos.le
+    have h2 : y * (99 / 100) ≤ y * (1 - t) := mul_le_mul_of_nonneg_left (by linarith) hypos.le
+    linarith [hRy]
+  -- y e_b² ≤ (10/99) U
+  have hterm : y * (1 - x * bv) ^ 2 ≤ 11 / 100 * U := by
+    have h1 : y * (1 - x * bv) ^ 2 ≤ y * (t * t) := mul_le_mul_of_nonneg_left hsq hypos.le
+    have h2 : y * (99 / 100) ≤ k * U := le_trans hyR hk
+    have h3 : y * (t * t) * (99 / 100) ≤ k * U * (t * t) := by
+      have := mul_le_mul_of_nonneg_right h2 (by positivity : 0 ≤ t * t)
+      linarith
+    have h4 : k * U * (t * t) = (k * t * t) * U := by ring
+    have h5 : (k * t * t) * U ≤ 1 / 10 * U := mul_le_mul_of_nonneg_right hkt hU.le
+    nlinarith
+  -- triangle
+  have hdy : |bv * (2 - x * bv) - y| = y * (1 - x * bv) ^ 2 := by
+    rw [hd]
+    have : y * (1 - (1 - x * bv) ^ 2) - y = -(y * (1 - x * bv) ^ 2) := by ring
+    rw [this, abs_neg, abs_of_nonneg (mul_nonneg hypos.le hsq0)]
+  have htri : |Rv - y| ≤ |Rv - bv * (2 - x * bv)| + |bv * (2 - x * bv) - y| := by
+    have := abs_add_le (Rv - bv * (2 - x * bv)) (bv * (2 - x * bv) - y)
+    have e : Rv - bv * (2 - x * bv) + (bv * (2 - x * bv) - y) = Rv - y := by ring
+    rw [e] at this; exact this
+  rw [hdy] at htri
+  linarith
+
+/-- `with_prec(P)` of a positive decimal has at least `P` digits -/
+theorem withPrec_int_lower {est : Nat → Nat} (hest : EstOK est) (d : Dec) (P : Nat) (hP : 1 ≤ P) (hd : 0 < d.int) :
+    (10 : Int) ^ (P - 1) ≤ (d.withPrec est P).int := by
+  rw [withPrec_spec hest]
+  have hn0 : d.int.natAbs ≠ 0 := by omega
+  have hlow := pow_numDigits_le d.int.natAbs hn0
+  have hndpos := numDigits_pos d.int.natAbs
+  unfold Spec.roundToPrec Spec.roundToScale
+  rw [Spec.numDigits_eq_model]
+  by_cases hcase : d.scale + ((P : Int) - (numDigits d.int.natAbs : Int)) ≥ d.scale
+  · rw [if_pos hcase]
+    simp only
+    obtain ⟨j, hj⟩ : ∃ j : Nat, (d.scale + ((P : Int) - (numDigits d.int.natAbs : Int)) - d.scale).toNat = j ∧ numDigits d.int.natAbs + j = P :=
+      ⟨(d.scale + ((P : Int) - (numDigits d.int.natAbs : Int)) - d.scale).toNat, rfl, by omega⟩
+    rw [hj.1]
+    have h1 : 10 ^ (numDigits d.int.natAbs - 1) * 10 ^ j ≤ d.int.natAbs * 10 ^ j := Nat.mul_le_mul_right _ hlow
+    rw [← pow_add, show numDigits d.int.natAbs - 1 + j = P - 1 by omega] at h1
+    have : d.int = (d.int.natAbs : Int) := by omega
+    rw [this]
+    exact_mod_cast h1
+  · rw [if_neg hcase]
+    obtain ⟨k, hk⟩ : ∃ k : Nat, (numDigits d.int.natAbs : Int) - P = k ∧ 1 ≤ k := ⟨numDigits d.int.natAbs - P, by omega, by omega⟩
+    have hkk : (d.scale - (d.scale + ((P : Int) - (numDigits d.int.natAbs : Int)))).toNat = k := by omega
+    rw [hkk]
+    have hneg : decide (d.int < 0) = false := by simp; omega
+    have hsg : Spec.sgn d.int = 1 := by unfold Spec.sgn; rw [if_neg (by omega)]
+    rw [hneg, hsg, one_mul]
+    simp only
+    have hq : 10 ^ (P - 1) ≤ d.int.natAbs / 10 ^ k := by
+      rw [Nat.le_div_iff_mul_le (by positivity), ← pow_add, show P - 1 + k = numDigits d.int.natAbs - 1 by omega]
+      exact hlow
+    have hR : 10 ^ (P - 1) ≤ Spec.roundNat .HalfUp false d.int.natAbs k := by
+      unfold Spec.roundNat; split <;> omega
+    exact_mod_cast hR
+
+/-- **the sharp exit bound**: the iterate produced from a `b` with small residual lies within `0.61`
+    units of its own last digit of `1/x` -/
+theorem exit_sharp {est : Nat → Nat} (hest : EstOK est) (s : Dec) (hs : 0 < s.value) (p : Nat) (hp : 1 ≤ p)
+    (b : Dec) (hb : 0 < b.value) (heb : |1 - s.value * b.value| ≤ 2 * invRho p)
+    (heR : |1 - s.value * ((invNext s b).withPrec est (p + inverseExtraPrec)).value| ≤ 2 * invRho p) :
+    |((invNext s b).withPrec est (p + inverseExtraPrec)).value - 1 / s.value| ≤
+      61 / 100 * (10 : ℚ) ^ (-((invNext s b).withPrec est (p + inverseExtraPrec)).scale) := by
+  obtain ⟨hρ0, hρ⟩ := invRho_small p hp
+  have hextra : inverseExtraPrec = 2 := rfl
+  have hdv := invNext_value s b
+  obtain ⟨e1, e2⟩ := abs_le.mp heb
+  have hdpos : 0 < (invNext s b).value := by rw [hdv]; apply mul_pos hb; linarith
+  have hdint : 0 < (invNext s b).int := (value_pos_iff _).mp hdpos
+  obtain ⟨a1, a2, a3⟩ := withPrec_abs_error hest (invNext s b) (p + inverseExtraPrec) (by omega) hdint
+  rw [hdv] at a1
+  generalize (invNext s b).withPrec est (p + inverseExtraPrec) = R at a1 a2 a3 heR ⊢
+  have hU : (0 : ℚ) < (10 : ℚ) ^ (-R.scale) := zpow_pos (by norm_num) _
+  -- R.value ≤ 10^P · U
+  have hk : R.value ≤ (10 : ℚ) ^ (p + inverseExtraPrec) * (10 : ℚ) ^ (-R.scale) := by
+    unfold Dec.value
+    have : (R.int : ℚ) ≤ (10 : ℚ) ^ (p + inverseExtraPrec) := by exact_mod_cast a2
+    exact mul_le_mul_of_nonneg_right this hU.le
+  -- t = 2ρ = 10^(1-P)
+  have ht : 2 * invRho p = (10 : ℚ) ^ (1 - ((p + inverseExtraPrec : Nat) : Int)) := by unfold invRho; ring
+  have ht0 : (0 : ℚ) < 2 * invRho p := by rw [ht]; exact zpow_pos (by norm_num) _
+  have hkt : (10 : ℚ) ^ (p + inverseExtraPrec) * (2 * invRho p) * (2 * invRho p) ≤ 1 / 10 := by
+    rw [ht, ← zpow_natCast, ← zpow_add₀ (by norm_num : (10 : ℚ) ≠ 0), ← zpow_add₀ (by norm_num : (10 : ℚ) ≠ 0)]
+    have : ((p + inverseExtraPrec : Nat) : Int) + (1 - ((p + inverseExtraPrec : Nat) : Int)) + (1 - ((p + inverseExtraPrec : Nat) : Int))
+        = 2 - ((p + inverseExtraPrec : Nat) : Int) := by ring
+    rw [this]
+    have h1 : (10 : ℚ) ^ (2 - ((p + inverseExtraPrec : Nat) : Int)) ≤ (10 : ℚ) ^ (-1 : Int) :=
+      zpow_le_zpow_right₀ (by norm_num) (by rw [hextra]; push_cast; omega)
+    have e : (10 : ℚ) ^ (-1 : Int) = 1 / 10 := by norm_num
+    rw [e] at h1; exact h1
+  exact sharp_arith s.value b.value R.value _ _ (2 * invRho p) hs hU ht0 (by linarith) hk (by positivity) hkt heb heR a1
+
+/-- rounding a positive decimal to `p < digits` significant digits, under any mode, moves it by at
+    most `1 − 10^-k` units of the result's last digit (`k` = number of dropped digits) -/
+theorem roundToPrec_abs_error (d : Dec) (p : Nat) (m : Mode) (hd : 0 < d.int) (hp : p < numDigits d.int.natAbs) :
+    (Spec.roundToPrec d p m).scale = d.scale - ((numDigits d.int.natAbs - p : Nat) : Int) ∧
+    |(Spec.roundToPrec d p m).value - d.value| ≤
+      (1 - (10 : ℚ) ^ (-((numDigits d.int.natAbs - p : Nat) : Int))) * (10 : ℚ) ^ (-(Spec.roundToPrec d p m).scale) := by
+  unfold Spec.roundToPrec Spec.roundToScale
+  rw [Spec.numDigits_eq_model]
+  obtain ⟨k, hk⟩ : ∃ k : Nat, numDigits d.int.natAbs - p = k ∧ 1 ≤ k := ⟨numDigits d.int.natAbs - p, rfl, by omega⟩
+  rw [hk.1]
+  have hcase : ¬ (d.scale + ((p : Int) - (numDigits d.int.natAbs : Int)) ≥ d.scale) := by omega
+  rw [if_neg hcase]
+  have hkk : (d.scale - (d.scale + ((p : Int) - (numDigits d.int.natAbs : Int)))).toNat = k := by omega
+  rw [hkk]
+  have hns : d.scale + ((p : Int) - (numDigits d.int.natAbs : Int)) = d.scale - k := by omega
+  rw [hns]
+  have hneg : decide (d.int < 0) = false := by simp; omega
+  have hsg : Spec.sgn d.int = 1 := by unfold Spec.sgn; rw [if_neg (by omega)]
+  rw [hneg, hsg, one_mul]
+  refine ⟨rfl, ?_⟩
+  simp only
+  -- the rounded integer is a neighbour of n / 10^k
+  have hM : 0 < 10 ^ k := by positivity
+  have hdm := Nat.div_add_mod d.int.natAbs (10 ^ k)
+  have hml := Nat.mod_lt d.int.natAbs hM
+  have hnb : Spec.roundNat m false d.int.natAbs k = d.int.natAbs / 10 ^ k ∨
+      (Spec.roundNat m false d.int.natAbs k = d.int.natAbs / 10 ^ k + 1 ∧ d.int.natAbs % 10 ^ k ≠ 0) := by
+    unfold Spec.roundNat
+    split
+    · rename_i h
+      right; refine ⟨rfl, ?_⟩
+      intro h0
+      rw [h0, roundUpM_zero_tail m false _ _ (by positivity)] at h
+      exact Bool.false_ne_true h
+    · left; rfl
+  unfold Dec.value
+  simp only
+  have hnat : (d.int : ℚ) = (d.int.natAbs : ℚ) := by
+    rw [← Int.cast_natCast, Int.natAbs_of_nonneg (by omega)]
+  have hsplit : (d.int : ℚ) * (10 : ℚ) ^ (-d.scale) = (d.int.natAbs : ℚ) / (10 : ℚ) ^ k * (10 : ℚ) ^ (-(d.scale - (k : Int))) := by
+    rw [hnat]
+    have : -(d.scale - (k : Int)) = -d.scale + (k : Int) := by ring
+    rw [this, zpow_add₀ (by norm_num : (10 : ℚ) ≠ 0), zpow_natCast]
+    field_simp
+  rw [hsplit]
+  have hu : (0 : ℚ) < (10 : ℚ) ^ (-(d.scale - (k : Int))) := zpow_pos (by norm_num) _
+  rw [← sub_mul, abs_mul, abs_of_pos hu]
+  apply mul_le_mul_of_nonneg_right _ hu.le
+  push_cast
+  -- n / 10^k = q + t / 10^k
+  have hMq : (0 : ℚ) < (10 : ℚ) ^ k := by positivity
+  have hnq : (d.int.natAbs : ℚ) / (10 : ℚ) ^ k = ((d.int.natAbs / 10 ^ k : Nat) : ℚ) + ((d.int.natAbs % 10 ^ k : Nat) : ℚ) / (10 : ℚ) ^ k := by
+    have : (d.int.natAbs : ℚ) = ((10 ^ k : Nat) : ℚ) * ((d.int.natAbs / 10 ^ k : Nat) : ℚ) + ((d.int.natAbs % 10 ^ k : Nat) : ℚ) := by
+      exact_mod_cast hdm.symm
+    rw [this]; push_cast; field_simp
+  have hinv : (10 : ℚ) ^ (-(k : Int)) = 1 / (10 : ℚ) ^ k := by rw [zpow_neg, zpow_natCast, one_div]
+  rw [hinv, hnq]
+  have ht0 : (0 : ℚ) ≤ ((d.int.natAbs % 10 ^ k : Nat) : ℚ) := Nat.cast_nonneg _
+  have ht1 : ((d.int.natAbs % 10 ^ k : Nat) : ℚ) + 1 ≤ (10 : ℚ) ^ k := by exact_mod_cast hml
+  rcases hnb with h | ⟨h, hne⟩
+  · rw [h]
+    have : ((d.int.natAbs % 10 ^ k : Nat) : ℚ) / (10 : ℚ) ^ k ≤ 1 - 1 / (10 : ℚ) ^ k := by
+      rw [div_le_iff₀ hMq]; field_simp; linarith
+    rw [abs_le]; constructor
+    · have : 0 ≤ ((d.int.natAbs % 10 ^ k : Nat) : ℚ) / (10 : ℚ) ^ k := by positivity
+      have h1 : (0 : ℚ) ≤ 1 - 1 / (10 : ℚ) ^ k := by
+        rw [sub_nonneg, div_le_one hMq]; exact_mod_cast (Nat.one_le_pow _ _ (by norm_num))
+      linarith
+    · have : 0 ≤ ((d.int.natAbs % 10 ^ k : Nat) : ℚ) / (10 : ℚ) ^ k := by positivity
+      have h1 : (0 : ℚ) ≤ 1 - 1 / (10 : ℚ) ^ k := by
+        rw [sub_nonneg, div_le_one hMq]; exact_mod_cast (Nat.one_le_pow _ _ (by norm_num))
+      linarith
+  · rw [h]
+    have ht2 : (1 : ℚ) ≤ ((d.int.natAbs % 10 ^ k : Nat) : ℚ) := by
+      exact_mod_cast (Nat.one_le_iff_ne_zero.mpr hne)
+    have hlow : 1 / (10 : ℚ) ^ k ≤ ((d.int.natAbs % 10 ^ k : Nat) : ℚ) / (10 : ℚ) ^ k :=
+      div_le_div_of_nonneg_right ht2 hMq.le
+    have hup : ((d.int.natAbs % 10 ^ k : Nat) : ℚ) / (10 : ℚ) ^ k ≤ 1 := by
+      rw [div_le_one hMq]; linarith
+    push_cast
+    rw [abs_le]; constructor <;> linarith
 
 end BigDec
